@@ -27,7 +27,9 @@ fn machine(idx: u64, mode: u64, debug: bool) -> (Machine, Vec<u16>) {
     (m, words)
 }
 fn signature(addr: u16) -> Option<ParameterList> {
-    match addr { 0x3001 | 0x3003 | 0x3005 => Some(ParameterList::with_calling_convention(&["a", "b"])), 0x3002 | 0x3004 => Some(ParameterList::with_pass_by_register(&[("x", Reg::R0), ("y", Reg::R1)], Some(Reg::R0))), _ => None }
+    match addr { 0x3001 | 0x3003 | 0x3005 => Some(ParameterList::with_calling_convention(&["a", "b"])), 0x3002 => Some(ParameterList::with_pass_by_register(&[("x", Reg::R0), ("y", Reg::R1)], Some(Reg::R0))),
+        // parameters in the link register and the stack pointer: what the callee sees at entry (R7 = the return address)
+        0x3004 => Some(ParameterList::with_pass_by_register(&[("x", Reg::R0), ("ret", Reg::R7), ("sp", Reg::R6)], Some(Reg::R0))), _ => None }
 }
 
 #[derive(Clone, Debug, PartialEq)]
@@ -66,7 +68,7 @@ fn run_on(idx: u64, mode: u64, debug: bool, int_at: Option<u64>, vect: u8, reuse
             let (args, fp) = match kind {
                 0 => match signature(callee) {
                     Some(ParameterList::CallingConvention { .. }) => (stack.clone(), Some(r[6].wrapping_sub(4))),
-                    Some(ParameterList::PassByRegister { .. }) => (vec![r[0], r[1]], None),
+                    Some(ParameterList::PassByRegister { .. }) => (if callee == 0x3004 { vec![r[0], caller.wrapping_add(1), r[6]] } else { vec![r[0], r[1]] }, None),
                     None => (vec![], None),
                 },
                 1 => (match callee { 0x21 | 0x22 | 0x24 => vec![r[0]], _ => vec![] }, None),
